@@ -13,7 +13,7 @@ ID = 'C10'
 LEVEL = 'exploration'
 DECIDING = 'batches_checked'
 CHUNK = {'quick': 1, 'thorough': 2}
-TIMEOUT = 1500
+TIMEOUT = {'quick': 600, 'thorough': 1500}
 FAMILIES = ['gauss', 'funnel', 'periodic', 'plateau', 'mixture', 'corr', 'ring', 'constant', 'islands', 'staircase']
 RULE = ('case = one seeded Sampler driven through a generated history rich in run() calls: n_like_max below, at and '
         'above the current count (0 upward, irregular steps), timeouts of 0,1,2,5,7.5 units of a VIRTUAL clock '
